@@ -66,6 +66,13 @@ def gen(rnd, idx=0, nfiles=None, ntypes=None, ncmds=None, nevents=None, validato
         nm = "platform_cmd_%d" % idx
         for gate in ('#[cfg(target_os = "windows")]', '#[cfg(not(target_os = "windows"))]'):
             items.append(Item("command", nm, rg.command_src(nm, [("path", "String"), ("flags", "u32")], "Result<String, String>", pre_attrs=[gate])))
+    if rnd.random() < 0.35:
+        # serde newtypes / tuple structs among the used types (the tool has no declaration form for them — a recorded finding of
+        # C07 / C02 — but whatever it does about them, it does the same on every run and to nothing else)
+        for k in range(rnd.randint(1, 2)):
+            nt = "Newtype%d_%d" % (idx, k)
+            items.append(Item("type", nt, "#[derive(Serialize, Deserialize)]\npub struct %s(pub %s);\n\n" % (nt, rnd.choice(["u32", "String", "u32, pub String"]))))
+            items.append(Item("command", "takes_%s" % nt.lower(), rg.command_src("takes_%s" % nt.lower(), [("id", nt), ("other", rnd.choice(tnames))], "Option<%s>" % rnd.choice(tnames))))
     for e in range(nevents):
         nm = "notify_%d_%d" % (idx, e)
         pt = rnd.choice(tnames)
